@@ -257,7 +257,8 @@ var worldKinds = []wk{
 }
 
 var profC01 = profile{
-	must: []string{"auth"}, may: []string{"confirm", "lock", "logout", "oauth2", "otp", "recover", "register", "remember"},
+	arbVariants: true,
+	must:        []string{"auth"}, may: []string{"confirm", "lock", "logout", "oauth2", "otp", "recover", "register", "remember"},
 	setups: []string{"totp", "sms", "recovery", "expire"}, kinds: worldKinds, minOps: 14, maxOps: 34,
 	accts: [2]int{2, 4}, browsers: [2]int{1, 3}, middlewares: []string{"", "remember", "remember", "expire"},
 	tweak:      func(t *rapid.T, c *harness.Config) { c.LockAfter = rapid.IntRange(2, 6).Draw(t, "lockafter2") },
